@@ -85,3 +85,20 @@ package crypto
 //@   callee sha256.Sum256
 //@   pureeffect
 //@   requires [cache_key_is_the_hash_of_the_marshalled_token] resultOf(a0, "*).Marshal")
+
+// ---- C30 (delegated session tokens): a V2 token is authentic only together with the whole
+// chain it was derived from: whatever scheme signed the token itself, a nil answer is given
+// only after the origin token (if there is one) was authenticated too.
+//@ fileprops C30
+//@ ghost pred tokenHasOrigin() bool
+//@ ghost pred originChainAuthenticated() bool
+//@ callrule c30_token_origin in AuthenticateTokenV2
+//@   callee *Token).Origin, *WithEncodedBody).Origin, (T).Origin, *.Origin
+//@   pureeffect
+//@   defines (result != nil) == tokenHasOrigin()
+//@ callrule c30_origin_authenticated in AuthenticateTokenV2
+//@   callee crypto.AuthenticateTokenV2
+//@   pureeffect
+//@   defines err == nil ==> originChainAuthenticated()
+//@ func AuthenticateTokenV2
+//@   ensures [authentic_only_with_its_origin_chain] err == nil && tokenHasOrigin() ==> originChainAuthenticated()
